@@ -289,23 +289,27 @@ fn intern(table: &mut Vec<String>, key: &str) -> usize {
 }
 
 /// the request line for the model driver; the triplet extractor is a black box, its output for each put is read
-/// off run A (cards built by engine "rules" whose source is that put's WAL sequence)
+/// off run A (cards built by engine "rules" whose source is the frame id that put receives)
 fn wire(hist: &Value, report_a: &Value) -> Wire {
     let mut slots: Vec<String> = vec![];
     let mut values: Vec<String> = vec![];
     let final_cards = report_a["reopened"]["cards"].as_array().cloned().unwrap_or_default();
     let results: Vec<String> = report_a["results"].as_array().map(|a| a.iter().map(|x| x.as_str().unwrap_or("").to_string()).collect()).unwrap_or_default();
     let mut out = vec![];
+    // frame ids are dense and assigned in WAL order: the id a put/update receives = number of earlier successful inserts
+    let mut inserts = 0u64;
     for (i, op) in hist["ops"].as_array().cloned().unwrap_or_default().iter().enumerate() {
         let kind = s(op, "op").unwrap_or_default();
+        let assigned = inserts;
+        if (kind == "put" || kind == "update") && results.get(i).map(|r| r.starts_with("ok ")).unwrap_or(false) { inserts += 1; }
         let w = match kind.as_str() {
             "put" => {
                 let uri = s(op, "uri").and_then(|u| u.rsplit('/').next().and_then(|n| n.parse::<u64>().ok())).unwrap_or(0);
                 let mut trip = vec![];
                 if b(op, "triplets") {
-                    if let Some(seq) = results.get(i).and_then(|r| r.strip_prefix("ok ")).and_then(|n| n.parse::<u64>().ok()) {
+                    if results.get(i).map(|r| r.starts_with("ok ")).unwrap_or(false) {
                         for c in &final_cards {
-                            if c["engine"].as_str() == Some("rules") && c["source_frame_id"].as_u64() == Some(seq) {
+                            if c["engine"].as_str() == Some("rules") && c["source_frame_id"].as_u64() == Some(assigned) {
                                 let key = format!("{}:{}", c["entity"].as_str().unwrap_or("").to_lowercase(), c["slot"].as_str().unwrap_or("").to_lowercase());
                                 trip.push(format!("{}.{}", intern(&mut slots, &key), intern(&mut values, c["value"].as_str().unwrap_or(""))));
                             }
